@@ -30,6 +30,20 @@ pub enum Q {
   MonthNext(i64, i64, i64),
   /// the public, uncached constructor
   MonthNew(i64, i64),
+  // ---- the wider API surface (M7 / fresh processes): any function may have grown a memo
+  Term(i64, i64),
+  TermDay(i64),
+  Week(i64, i64),
+  JdDay(i64, i64),
+  SolarFest(i64, i64),
+  LunarFestDate(i64, i64, i64),
+  Holiday(i64),
+  Almanac(i64),
+  HourAlmanac(i64),
+  Series(i64),
+  LeapMonth(i64),
+  Pillar(i64, i64),
+  Clock(i64, i64),
 }
 
 impl Q {
@@ -45,6 +59,19 @@ impl Q {
       Q::ChildLimit(a, man) => format!("ChildLimit({}, {})", fmt_abs(*a), if *man { "man" } else { "woman" }),
       Q::MonthNext(y, m, n) => format!("LunarMonth({}, {}).next({})", y, m, n),
       Q::MonthNew(y, m) => format!("LunarMonth::new({}, {})", y, m),
+      Q::Term(y, i) => format!("SolarTerm::from_index({}, {})", y, i),
+      Q::TermDay(n) => format!("{}.get_term_day()", cal::fmt_dn(*n)),
+      Q::Week(n, s) => format!("{}.get_solar_week({})", cal::fmt_dn(*n), s),
+      Q::JdDay(n, ms) => format!("JulianDay({}+{}ms).get_solar_day()", cal::fmt_dn(*n), ms),
+      Q::SolarFest(y, i) => format!("SolarFestival::from_index({}, {})", y, i),
+      Q::LunarFestDate(y, m, d) => format!("LunarFestival::from_ymd({}, {}, {})", y, m, d),
+      Q::Holiday(n) => format!("{}.get_legal_holiday()", cal::fmt_dn(*n)),
+      Q::Almanac(n) => format!("{} day almanac", cal::fmt_dn(*n)),
+      Q::HourAlmanac(a) => format!("{} hour almanac", fmt_abs(*a)),
+      Q::Series(n) => format!("{} nine/dog/plum/pentad/commanding stem", cal::fmt_dn(*n)),
+      Q::LeapMonth(y) => format!("LunarYear({}).get_leap_month()", y),
+      Q::Pillar(i, n) => format!("SixtyCycle({}).next({})", i, n),
+      Q::Clock(a, n) => format!("{}.next({}) / subtract", fmt_abs(*a), n),
     }
   }
 
@@ -79,6 +106,87 @@ impl Q {
         Ok(x) => format!("{}/{} first {} days {} idx {}", x.get_year(), x.get_month_with_leap(), first_dn(&x), x.get_day_count(), x.get_index_in_year()),
         Err(_) => "REFUSED".into(),
       },
+      Q::Term(y, i) => {
+        let t = tyme4rs::tyme::solar::SolarTerm::from_index(*y as isize, *i as isize);
+        format!("{} {} {} {:?} {:?}", t.get_year(), t.get_index(), t.get_name(), t.get_julian_day().get_day().to_bits(), t.get_cursory_julian_day().to_bits())
+      }
+      Q::TermDay(n) => {
+        let sd = sd_of_dn(*n);
+        let td = sd.get_term_day();
+        format!("{} {} {} / {}", td.get_solar_term().get_year(), td.get_solar_term().get_index(), td.get_day_index(), sd.get_term().get_name())
+      }
+      Q::Week(n, st) => {
+        let sd = sd_of_dn(*n);
+        let w = sd.get_solar_week(*st as usize);
+        format!("{} idx {} in-year {} count {}", fmt_ymd(ymd(&w.get_first_day())), w.get_index(), w.get_index_in_year(), sd.get_solar_month().get_week_count(*st as usize))
+      }
+      Q::JdDay(n, ms) => {
+        let j = tyme4rs::tyme::jd::JulianDay::from_julian_day(*n as f64 - 0.5 + *ms as f64 / 86_400_000.0);
+        format!("{} {}", fmt_ymd(ymd(&j.get_solar_day())), j.get_solar_time())
+      }
+      Q::SolarFest(y, i) => match tyme4rs::tyme::festival::SolarFestival::from_index(*y as isize, *i as usize) {
+        Some(f) => format!("{} {}", fmt_ymd(ymd(&f.get_day())), f.get_name()),
+        None => "none".into(),
+      },
+      Q::LunarFestDate(y, m, d) => match LunarFestival::from_ymd(*y as isize, *m as isize, *d as usize) {
+        Some(f) => format!("{} {} {}", f.get_index(), fmt_lymd(lymd(&f.get_day())), f.get_name()),
+        None => "none".into(),
+      },
+      Q::Holiday(n) => match sd_of_dn(*n).get_legal_holiday() {
+        Some(h) => format!("{} {} {}", fmt_ymd(ymd(&h.get_day())), h.is_work(), h.get_name()),
+        None => "none".into(),
+      },
+      Q::Almanac(n) => {
+        let l = sd_of_dn(*n).get_lunar_day();
+        let names = |v: Vec<String>| v.join(",");
+        format!(
+          "{} {} {} {} {} | {} | {} | {}",
+          l.get_duty().get_name(),
+          l.get_twelve_star().get_name(),
+          l.get_twenty_eight_star().get_name(),
+          l.get_nine_star().get_name(),
+          l.get_six_star().get_name(),
+          names(l.get_gods().iter().map(|g| g.get_name()).collect()),
+          names(l.get_recommends().iter().map(|g| g.get_name()).collect()),
+          names(l.get_avoids().iter().map(|g| g.get_name()).collect())
+        )
+      }
+      Q::HourAlmanac(a) => {
+        let h = st_of_abs(*a).get_lunar_hour();
+        let names = |v: Vec<String>| v.join(",");
+        format!("{} {} {} | {} | {}", h.get_sixty_cycle().get_name(), h.get_nine_star().get_name(), h.get_twelve_star().get_name(), names(h.get_recommends().iter().map(|g| g.get_name()).collect()), names(h.get_avoids().iter().map(|g| g.get_name()).collect()))
+      }
+      Q::Series(n) => {
+        let sd = sd_of_dn(*n);
+        let ph = sd.get_phenology_day();
+        let hh = sd.get_hide_heaven_stem_day();
+        format!(
+          "{:?} {:?} {:?} {} {} {} {}",
+          sd.get_nine_day().map(|x| (x.get_nine().get_index(), x.get_day_index())),
+          sd.get_dog_day().map(|x| (x.get_dog().get_index(), x.get_day_index())),
+          sd.get_plum_rain_day().map(|x| (x.get_plum_rain().get_index(), x.get_day_index())),
+          ph.get_phenology().get_index(),
+          ph.get_day_index(),
+          hh.get_hide_heaven_stem().get_heaven_stem().get_name(),
+          hh.get_day_index()
+        )
+      }
+      Q::LeapMonth(y) => {
+        let ly = LunarYear::from_year(*y as isize);
+        format!("{} {} {}", ly.get_leap_month(), ly.get_month_count(), ly.get_day_count())
+      }
+      Q::Pillar(i, n) => {
+        let p = tyme4rs::tyme::sixtycycle::SixtyCycle::from_index(*i as isize);
+        let _ = p.get_ten();
+        let _ = p.get_sound();
+        let q = p.next(*n as isize);
+        format!("{} {} {} {}", q.get_name(), q.get_ten().get_name(), q.get_sound().get_name(), q.get_extra_earth_branches().iter().map(|b| b.get_name()).collect::<Vec<_>>().join(""))
+      }
+      Q::Clock(a, n) => {
+        let st = st_of_abs(*a);
+        let x = st.next(*n as isize);
+        format!("{} {} {}", x, x.subtract(st), x.get_julian_day().get_day().to_bits())
+      }
     });
     match r {
       Ok(s) => s,
@@ -176,6 +284,232 @@ pub fn pool(seed: u64, size: usize) -> Vec<Q> {
   let mut v: Vec<Q> = set.into_iter().collect();
   rng.shuffle(&mut v);
   v
+}
+
+
+fn wide_day(rng: &mut Rng) -> i64 {
+  let c = cal();
+  crate::history::start_day(rng).clamp(c.dn(2, 1, 1), c.dn(9990, 1, 1))
+}
+
+/// a random query of the wider API surface
+fn wide_query(rng: &mut Rng) -> Q {
+  let n = wide_day(rng);
+  let (y, _, _) = cal().date(n);
+  match rng.below(16) {
+    14 | 15 => {
+      // a birth (not in 1560-1600, whose limits meet the October 1582 gap), every third one in the first days of a year
+      let mut a = n * 86400 + rng.range(0, 86399);
+      let mut yy = y;
+      if (1560..=1600).contains(&yy) || yy >= 9900 || yy < 30 {
+        yy = rng.range(1700, 9800);
+        a = cal().dn(yy, 6, 15) * 86400 + rng.range(0, 86399);
+      }
+      if rng.chance(1, 3) {
+        a = cal().dn(yy, 1, rng.range(1, 5)) * 86400 + rng.range(0, 86399);
+      }
+      if rng.chance(1, 2) {
+        Q::ChildLimit(a, rng.chance(1, 2))
+      } else {
+        Q::EightChar(a)
+      }
+    }
+    0 => Q::Term(y, rng.range(-6, 30)),
+    1 => Q::TermDay(n),
+    2 => Q::Week(n, rng.range(0, 6)),
+    3 => Q::JdDay(n, *rng.pick(&[0i64, 43_200_000, 86_399_400, 86_399_900])),
+    4 => Q::SolarFest(y, rng.range(0, 9)),
+    5 => Q::LunarFestDate(y, rng.range(1, 12), rng.range(1, 29)),
+    6 => Q::Holiday(cal().dn(rng.range(2001, 2026), rng.range(1, 12), rng.range(1, 28))),
+    7 => Q::Almanac(n),
+    8 => Q::HourAlmanac(n * 86400 + rng.range(0, 86399)),
+    9 => Q::Series(n),
+    10 => Q::LeapMonth(y),
+    11 => Q::Pillar(rng.range(0, 59), rng.range(-70, 70)),
+    12 => Q::Clock(n * 86400 + rng.range(0, 86399), rng.range(-4_000_000, 4_000_000)),
+    _ => Q::Festival(y, rng.range(0, 12)),
+  }
+}
+
+/// a query related to q: the same question about a related day / year / instant / index, or another question
+/// about the same day
+fn related_query(q: &Q, rng: &mut Rng) -> Q {
+  use crate::history::{related_day, related_instant, related_year};
+  let c = cal();
+  let (lo, hi) = (c.dn(2, 1, 1), c.dn(9990, 1, 1));
+  let rd = |rng: &mut Rng, n: i64| related_day(rng, n).clamp(lo, hi);
+  let ry = |rng: &mut Rng, y: i64| related_year(rng, y, 2, 9989);
+  // the day a query is about, where it has one
+  let day_of = |q: &Q| -> Option<i64> {
+    match q {
+      Q::TermDay(n) | Q::Week(n, _) | Q::JdDay(n, _) | Q::Holiday(n) | Q::Almanac(n) | Q::Series(n) | Q::SolarToLunar(n) | Q::SixtyDay(n) => Some(*n),
+      Q::HourAlmanac(a) | Q::Clock(a, _) | Q::EightChar(a) | Q::ChildLimit(a, _) => Some(a.div_euclid(86400)),
+      _ => None,
+    }
+  };
+  if rng.chance(1, 4) {
+    if let Some(n) = day_of(q) {
+      // another question about the same day
+      return match rng.below(9) {
+        0 => Q::TermDay(n),
+        1 => Q::Week(n, rng.range(0, 6)),
+        2 => Q::JdDay(n, *rng.pick(&[0i64, 86_399_900])),
+        3 => Q::Almanac(n),
+        4 => Q::Series(n),
+        5 => Q::SolarToLunar(n),
+        6 => Q::SixtyDay(n),
+        7 => Q::HourAlmanac(n * 86400 + rng.range(0, 86399)),
+        _ => Q::EightChar(n * 86400 + rng.range(0, 86399)),
+      };
+    }
+  }
+  match q {
+    Q::Term(y, i) => {
+      if rng.chance(1, 2) {
+        Q::Term(ry(rng, *y), *i)
+      } else {
+        Q::Term(*y, (*i + *rng.pick(&[1i64, -1, 12, 24, -24, 2])).clamp(-30, 53))
+      }
+    }
+    Q::TermDay(n) => Q::TermDay(rd(rng, *n)),
+    Q::Week(n, s) => {
+      if rng.chance(1, 4) {
+        // the same month and day a multiple of 400 years away (the Gregorian weekday cycle, which the Julian part
+        // of the range does not share)
+        let (y, m, d) = c.date(*n);
+        let y2 = y + 400 * *rng.pick(&[1i64, -1, 2, -2, 3, -3, 5, -5]);
+        if y2 >= 2 && y2 <= 9989 && cal::exists(y2, m, d) {
+          return Q::Week(c.dn(y2, m, d), *s);
+        }
+      }
+      Q::Week(rd(rng, *n), if rng.chance(1, 3) { rng.range(0, 6) } else { *s })
+    }
+    Q::JdDay(n, ms) => Q::JdDay(rd(rng, *n), if rng.chance(1, 2) { 0 } else { *ms }),
+    Q::SolarFest(y, i) => Q::SolarFest(ry(rng, *y), if rng.chance(1, 2) { *i } else { rng.range(0, 9) }),
+    Q::Festival(y, i) => match rng.below(4) {
+      0 if *y <= 998 && *i >= 10 => Q::Festival(10 * y + 1, i - 10),
+      1 if y % 10 == 1 && *i <= 2 && *y > 10 => Q::Festival(y / 10, i + 10),
+      2 => Q::Festival(*y, rng.range(0, 12)),
+      _ => Q::Festival(ry(rng, *y), *i),
+    },
+    Q::LunarFestDate(y, m, d) => match rng.below(4) {
+      0 => Q::LunarFestDate(*y, *d.min(&12), *m),
+      1 if *m == 1 && *d >= 11 && *d <= 19 => Q::LunarFestDate(*y, 11, d - 10),
+      2 => Q::LunarFestDate(ry(rng, *y), *m, *d),
+      _ => Q::LunarFestDate(*y, rng.range(1, 12), *d),
+    },
+    Q::Holiday(n) => Q::Holiday((n + *rng.pick(&[0i64, 1, -1, 7, 30, 365, -365, 6, -6])).clamp(c.dn(2000, 1, 1), c.dn(2027, 1, 1))),
+    Q::Almanac(n) => Q::Almanac(rd(rng, *n)),
+    Q::Series(n) => Q::Series(rd(rng, *n)),
+    Q::LeapMonth(y) => Q::LeapMonth(ry(rng, *y)),
+    Q::Pillar(i, n) => {
+      if rng.chance(1, 2) {
+        Q::Pillar((*i + *n).rem_euclid(60), *rng.pick(&[10i64, -10, 1, -1, 12, 60, 0]))
+      } else {
+        Q::Pillar(*i, rng.range(-70, 70))
+      }
+    }
+    Q::HourAlmanac(a) => Q::HourAlmanac(related_instant(rng, *a).clamp(lo * 86400, hi * 86400)),
+    Q::Clock(a, n) => Q::Clock(related_instant(rng, *a).clamp(lo * 86400, hi * 86400), if rng.chance(1, 2) { *n } else { *rng.pick(&[518_400i64, -518_400, 86_400, -1, 1, 31_536_000]) }),
+    Q::SolarToLunar(n) => Q::SolarToLunar(rd(rng, *n)),
+    Q::SixtyDay(n) => Q::SixtyDay(rd(rng, *n)),
+    Q::EightChar(a) => Q::EightChar(related_instant(rng, *a).clamp(lo * 86400, hi * 86400)),
+    Q::ChildLimit(a, man) if rng.chance(1, 3) => {
+      // the other end of the same civil year: the first days of January <-> December after Daxue
+      let (y, m, _) = c.date(a.div_euclid(86400));
+      let d = if m <= 6 { c.dn(y, 12, rng.range(8, 31)) } else { c.dn(y, 1, rng.range(1, 5)) };
+      Q::ChildLimit(d * 86400 + a.rem_euclid(86400), *man)
+    }
+    Q::ChildLimit(a, man) => {
+      let b = related_instant(rng, *a).clamp(c.dn(30, 1, 1) * 86400, c.dn(9900, 1, 1) * 86400);
+      let y = c.date(b.div_euclid(86400)).0;
+      if (1560..=1600).contains(&y) {
+        Q::ChildLimit(*a, !*man)
+      } else {
+        Q::ChildLimit(b, if rng.chance(1, 3) { !*man } else { *man })
+      }
+    }
+    Q::Month(y, m) | Q::MonthNew(y, m) => {
+      if *m >= 1 && *m <= 12 && rng.chance(1, 6) {
+        // a label the year must refuse (0, 13, or a leap month it lacks); the walk then returns to a valid month of
+        // the same year through the arm below
+        let leap = guard(|| LunarYear::from_year(*y as isize).get_leap_month() as i64).unwrap_or(0);
+        let bad = *rng.pick(&[0i64, 13, -13, if leap == *m { 13 } else { -*m }]);
+        return Q::MonthNew(*y, bad);
+      }
+      let y2 = if rng.chance(1, 2) && *m >= 1 && *m <= 12 { ry(rng, *y) } else { *y };
+      let leap = guard(|| LunarYear::from_year(y2 as isize).get_leap_month() as i64).unwrap_or(0);
+      let m2 = if rng.chance(1, 3) && leap > 0 {
+        -leap
+      } else if rng.chance(1, 2) && m.abs() >= 1 && m.abs() <= 12 {
+        m.abs()
+      } else {
+        rng.range(1, 12)
+      };
+      if rng.chance(1, 2) {
+        Q::MonthNew(y2, m2)
+      } else {
+        Q::Month(y2, m2)
+      }
+    }
+    Q::YearMonths(y) => Q::YearMonths(ry(rng, *y)),
+    Q::LunarToSolar(y, m, d) => Q::LunarToSolar(ry(rng, *y), *m, *d),
+    Q::MonthNext(y, m, n) => Q::MonthNext(ry(rng, *y), *m, *n),
+  }
+}
+
+/// a list in which related queries stand next to each other: walks of 4..10 related queries from random starts
+pub fn related_list(seed: u64, size: usize) -> Vec<Q> {
+  let mut rng = Rng::new(mix(seed, 0x7C10));
+  let base = pool(seed, 300);
+  let mut v: Vec<Q> = Vec::with_capacity(size + 10);
+  while v.len() < size {
+    let mut q = if rng.chance(1, 4) { rng.pick(&base).clone() } else { wide_query(&mut rng) };
+    for _ in 0..rng.range(4, 10) {
+      v.push(q.clone());
+      q = related_query(&q, &mut rng);
+    }
+  }
+  v.truncate(size);
+  v
+}
+
+/// M7: single-thread walks over related queries of the whole API surface.  Every answer must equal the answer
+/// the same query gets as the only call of a fresh thread (thread-local state pristine).
+fn m7(cfg: &Cfg, log: &mut Log) {
+  let n = cfg.tier.pick(40_000usize, 400_000usize);
+  let list = related_list(cfg.seed ^ 0x77, n);
+  // fresh-thread answers, each computed once
+  let mut distinct: Vec<Q> = list.clone();
+  distinct.sort();
+  distinct.dedup();
+  let fresh: Mutex<BTreeMap<Q, String>> = Mutex::new(BTreeMap::new());
+  let _ = crate::util::par_range(distinct.len(), 16, |i, _| {
+    let q = distinct[i].clone();
+    let q2 = q.clone();
+    let a = std::thread::spawn(move || q2.answer()).join().unwrap_or_else(|_| "THREAD-PANIC".into());
+    fresh.lock().unwrap().insert(q, a);
+  });
+  let fresh = fresh.into_inner().unwrap();
+  log.count("m7.distinct_queries_answered_on_fresh_threads", fresh.len() as u64);
+  // the walks, in list order, in chunks of 500 queries per worker thread (each chunk is one history)
+  let chunks = (list.len() + 499) / 500;
+  log.merge(crate::util::par_range(chunks, 1, |c, l| {
+    let lo = c * 500;
+    let hi = (lo + 500).min(list.len());
+    for k in lo..hi {
+      let q = &list[k];
+      let got = q.answer();
+      l.ev(1);
+      l.count("m7.answers_compared", 1);
+      let want = fresh.get(q).cloned().unwrap_or_default();
+      if got != want {
+        let hist: Vec<String> = list[k.saturating_sub(3).max(lo)..=k].iter().map(|x| x.show()).collect();
+        l.violate(format!("C10/related-history/{}", fnv(&q.show()) % 1_000_000), "answer after related queries on the same thread", format!("... {}", hist.join(" ; ")), got, format!("{} (the same query as the only call of a fresh thread)", want));
+      }
+    }
+    l.nt(1);
+  }));
 }
 
 fn cold_answers(qs: &[Q]) -> BTreeMap<Q, String> {
@@ -521,6 +855,20 @@ fn m5(cfg: &Cfg, log: &mut Log) {
       };
       let stepped_hour = describe_hour(&h.next(k));
       let fresh_hour = describe_hour(&st_of_abs(day * 86400 + sod + 7200 * k as i64).get_lunar_hour());
+      // the day an hour hands out answers day-level questions alike before and after the hour has answered
+      // hour-level ones (23:xx and term days included: the day's cycles turn with the civil day)
+      let hq = LunarHour::from_ymd_hms(l.get_year(), l.get_month(), l.get_day(), if sod % 5 == 0 { 23 } else { (sod / 3600) as usize }, ((sod % 3600) / 60) as usize, (sod % 60) as usize);
+      let day_before = {
+        let d = hq.get_lunar_day();
+        format!("{} {} {} {}", d.get_sixty_cycle_day().get_name(), d.get_duty().get_name(), d.get_twenty_eight_star().get_name(), d.get_twelve_star().get_name())
+      };
+      let _ = hq.get_sixty_cycle_hour();
+      let _ = hq.get_twelve_star();
+      let _ = hq.get_eight_char();
+      let day_after = {
+        let d = hq.get_lunar_day();
+        format!("{} {} {} {}", d.get_sixty_cycle_day().get_name(), d.get_duty().get_name(), d.get_twenty_eight_star().get_name(), d.get_twelve_star().get_name())
+      };
       // relations between a value that has answered questions and a never-touched value of the same date:
       // equal both ways, rendered alike, neither before nor after
       let cold_day = sd_of_dn(day).get_lunar_day();
@@ -535,7 +883,7 @@ fn m5(cfg: &Cfg, log: &mut Log) {
         h.get_lunar_day() == cold_day && cold_hour.get_lunar_day() == l,
         h.get_solar_time().get_lunar_hour() == h && h.next(k).next(-k) == h && cold_hour.next(k) == h.next(k),
         l.next(k).next(-k) == l && cold_day.next(k) == l.next(k),
-        l.get_sixty_cycle_day() == sd_of_dn(day).get_sixty_cycle_day() && h.get_sixty_cycle_hour() == cold_hour.get_solar_time().get_sixty_cycle_hour(),
+        l.get_sixty_cycle_day() == sd_of_dn(day).get_sixty_cycle_day() && h.get_sixty_cycle_hour() == cold_hour.get_solar_time().get_sixty_cycle_hour() && day_before == day_after,
       );
       let rel_ok = rel == (true, true, true, true, true, true, true, true, true, true);
       ((a1, a2), (b1, b2), (c1, c2), d2 == d2w && stepped_day == fresh_day && stepped_hour == fresh_hour, (e1, e2, e3), (f1, f2, f3), rel_ok, format!("{:?}", rel))
@@ -543,7 +891,7 @@ fn m5(cfg: &Cfg, log: &mut Log) {
     match r {
       Ok((a, b, cc, d, e, f, rel_ok, rel)) => {
         if !rel_ok {
-          log.violate(format!("C10/memo-relations/{}", cal::fmt_dn(day)), "equality, rendering and order between a value that has answered questions and a never-touched one", cal::fmt_dn(day), rel, "all true: (day ==, day rendering, day neither before nor after, hour ==, hour rendering, hour order, day of hour, hour round trips, day round trips, sexagenary views ==)".into());
+          log.violate(format!("C10/memo-relations/{}", cal::fmt_dn(day)), "equality, rendering and order between a value that has answered questions and a never-touched one", cal::fmt_dn(day), rel, "all true: (day ==, day rendering, day neither before nor after, hour ==, hour rendering, hour order, day of hour, hour round trips, day round trips, sexagenary views == and the hour's day answering alike before and after hour-level questions)".into());
         }
         if a != b || a != cc || !d || e != f {
           log.violate(format!("C10/memo/{}", cal::fmt_dn(day)), "per-value memos", cal::fmt_dn(day), format!("{:?} {:?} {:?} {} {:?} {:?}", a, b, cc, d, e, f), "identical answers in any call order, on clones taken before and after the first derived call, and after stepping from a value with filled memos".into());
@@ -551,6 +899,62 @@ fn m5(cfg: &Cfg, log: &mut Log) {
       }
       Err(msg) => log.violate(format!("C10/memo/{}", cal::fmt_dn(day)), "per-value memos", cal::fmt_dn(day), format!("panic: {}", msg), "no panic".into()),
     }
+  }
+}
+
+/// M5b: stems, branches and pillars.  The attributes of `x.next(n)` do not depend on whether x answered
+/// questions before it was stepped: warm source, cold source and a constructed target agree for every x and n.
+fn m5b(log: &mut Log) {
+  use tyme4rs::tyme::sixtycycle::{EarthBranch, HeavenStem, SixtyCycle};
+  let pillar = |q: &SixtyCycle| format!("{} {} {} {} {}", q.get_name(), q.get_ten().get_name(), q.get_sound().get_name(), q.get_heaven_stem().get_name(), q.get_extra_earth_branches().iter().map(|b| b.get_name()).collect::<Vec<_>>().join(""));
+  let stem = |q: &HeavenStem| format!("{} {} {} {} {}", q.get_name(), q.get_element().get_name(), q.get_direction().get_name(), q.get_combine().get_name(), q.get_joy_direction().get_name());
+  let branch = |q: &EarthBranch| format!("{} {} {} {} {}", q.get_name(), q.get_element().get_name(), q.get_zodiac().get_name(), q.get_opposite().get_name(), q.get_hide_heaven_stem_main().get_name());
+  let r = guard(|| {
+    let mut bad: Vec<(String, String, String)> = vec![];
+    let mut n_pairs = 0u64;
+    for n in -130i64..=130 {
+      for i in 0..60i64 {
+        let cold = SixtyCycle::from_index(i as isize).next(n as isize);
+        let src = SixtyCycle::from_index(i as isize);
+        let _ = pillar(&src);
+        let warm = src.next(n as isize);
+        let made = SixtyCycle::from_index((i + n).rem_euclid(60) as isize);
+        let (a, b, c) = (pillar(&warm), pillar(&cold), pillar(&made));
+        n_pairs += 1;
+        if a != b || a != c {
+          bad.push((format!("pillar_{}_step_{:+}", i, n), format!("warm source: {} / cold source: {}", a, b), c));
+        }
+      }
+      for i in 0..10i64 {
+        let src = HeavenStem::from_index(i as isize);
+        let _ = stem(&src);
+        let (a, b, c) = (stem(&src.next(n as isize)), stem(&HeavenStem::from_index(i as isize).next(n as isize)), stem(&HeavenStem::from_index((i + n).rem_euclid(10) as isize)));
+        n_pairs += 1;
+        if a != b || a != c {
+          bad.push((format!("stem_{}_step_{:+}", i, n), format!("warm source: {} / cold source: {}", a, b), c));
+        }
+      }
+      for i in 0..12i64 {
+        let src = EarthBranch::from_index(i as isize);
+        let _ = branch(&src);
+        let (a, b, c) = (branch(&src.next(n as isize)), branch(&EarthBranch::from_index(i as isize).next(n as isize)), branch(&EarthBranch::from_index((i + n).rem_euclid(12) as isize)));
+        n_pairs += 1;
+        if a != b || a != c {
+          bad.push((format!("branch_{}_step_{:+}", i, n), format!("warm source: {} / cold source: {}", a, b), c));
+        }
+      }
+    }
+    (bad, n_pairs)
+  });
+  match r {
+    Ok((bad, n)) => {
+      log.ev(n);
+      log.count("m5.cyclic_value_step_pairs", n);
+      for (k, o, e) in bad {
+        log.violate(format!("C10/memo-cyclic/{}", k), "attributes of a stepped stem / branch / pillar, source warm or cold", k.clone(), o, e);
+      }
+    }
+    Err(msg) => log.violate("C10/memo-cyclic/panic".into(), "attributes of a stepped stem / branch / pillar", "sweep".into(), format!("panic: {}", msg), "no panic".into()),
   }
 }
 
@@ -630,6 +1034,19 @@ fn order_for(n: usize, seed: u64, which: u64) -> Vec<usize> {
 }
 
 const M4_QUERIES: usize = 2000;
+const M4_RELATED: usize = 4000;
+
+/// the list every fresh process answers: the pool, the refused requests, and walks over related queries of the
+/// whole API surface (so that in listed order related queries are neighbours and in shuffled orders they are not)
+fn m4_list(seed: u64) -> Vec<Q> {
+  let mut qs = pool(seed, M4_QUERIES);
+  // refused requests are part of the list: they must not disturb the answers around them
+  for (k, r) in refusals().iter().enumerate() {
+    qs.insert((k * 173) % qs.len(), r.1.clone());
+  }
+  qs.extend(related_list(seed ^ 0x44, M4_RELATED));
+  qs
+}
 
 /// `vcheck --child <seed> <which> <threaded>`: answer the list in order `which`, print digests
 pub fn child_main(args: &[String]) {
@@ -637,12 +1054,7 @@ pub fn child_main(args: &[String]) {
   let seed: u64 = args.first().and_then(|s| s.parse().ok()).unwrap_or(1);
   let which: u64 = args.get(1).and_then(|s| s.parse().ok()).unwrap_or(0);
   let threaded = args.get(2).map(|s| s == "1").unwrap_or(false);
-  let mut qs = pool(seed, M4_QUERIES);
-  // refused requests are part of the list: they must not disturb the answers around them
-  let refs = refusals();
-  for (k, r) in refs.iter().enumerate() {
-    qs.insert((k * 173) % qs.len(), r.1.clone());
-  }
+  let qs = m4_list(seed);
   let order = order_for(qs.len(), seed, which);
   let d = digest_in_order(&qs, &order, threaded);
   let mut all = 0xC10u64;
@@ -690,13 +1102,7 @@ fn m4(cfg: &Cfg, log: &mut Log) {
     log.harness_error("fewer than two fresh-process answer tables");
     return;
   }
-  let qs = {
-    let mut qs = pool(cfg.seed, M4_QUERIES);
-    for (k, r) in refusals().iter().enumerate() {
-      qs.insert((k * 173) % qs.len(), r.1.clone());
-    }
-    qs
-  };
+  let qs = m4_list(cfg.seed);
   let (w0, _, base) = &tables[0];
   log.count("m4.fresh_processes", tables.len() as u64);
   log.count("m4.queries_per_process", base.len() as u64);
@@ -788,7 +1194,9 @@ pub fn run(cfg: &Cfg) -> (Log, Meta) {
   m1(cfg, &p, &cold, &mut log);
   m2(cfg, &p, &cold, &mut log);
   m5(cfg, &mut log);
+  m5b(&mut log);
   m6(cfg, &p, &cold, &mut log);
+  m7(cfg, &mut log);
   m4(cfg, &mut log);
   if cfg.tier == Tier::Thorough {
     m3_miri(cfg, &mut log);
@@ -803,10 +1211,12 @@ pub fn run(cfg: &Cfg) -> (Log, Meta) {
   log.floor("m4.fresh_processes", 3);
   log.floor("m4.answers_compared", 4_000);
   log.floor("m5.values", cfg.tier.pick(100, 5_000));
+  log.floor("m5.cyclic_value_step_pairs", 20_000);
   log.floor("m6.first_calls_on_a_fresh_thread", 50);
+  log.floor("m7.answers_compared", cfg.tier.pick(40_000, 400_000));
   let meta = Meta {
     rule: format!(
-      "pool of {} distinct valid queries (lunar months incl. the digit-colliding label pairs (Y,11)/(10Y+1,1), (Y,12)/(10Y+1,2), year month lists, both conversions, sexagenary days, festivals, eight characters, child limits, month stepping) and {} kinds of refused request; reference = cold answer after the guarded cache reset. M1: every collision pair in 4 orders; refusal of every kind at every position of {} short histories (length 1..6){}; {} random histories of 50..400 queries (30% collision labels, 10% refusals) - every answer equals its cold answer (lock poison flags are reported as notes, not judged). M2: {} rounds of 16 barrier-released threads on overlapping shuffled slices (120 of 160 queries each, refusals in every 4th thread), alternating cold/warm start and 0/50 injected yields between cache lookup and insert; double-computes counted from the hook (a run with none is inconclusive). M4: {} fresh processes answer the same 2,011-query list in different orders (the last ones on 8 threads). M5: per-value memos of LunarDay/LunarHour on clones taken before/after the first derived call. M6: 25 range-extreme queries and a sample of the pool, each as the very first library call of a fresh thread on a cold cache. {} distinct_nontrivial = distinct histories, rounds, process pairs.",
+      "pool of {} distinct valid queries (lunar months incl. the digit-colliding label pairs (Y,11)/(10Y+1,1), (Y,12)/(10Y+1,2), year month lists, both conversions, sexagenary days, festivals, eight characters, child limits, month stepping) and {} kinds of refused request; reference = cold answer after the guarded cache reset. M1: every collision pair in 4 orders; refusal of every kind at every position of {} short histories (length 1..6){}; {} random histories of 50..400 queries (30% collision labels, 10% refusals) - every answer equals its cold answer (lock poison flags are reported as notes, not judged). M2: {} rounds of 16 barrier-released threads on overlapping shuffled slices (120 of 160 queries each, refusals in every 4th thread), alternating cold/warm start and 0/50 injected yields between cache lookup and insert; double-computes counted from the hook (a run with none is inconclusive). M4: {} fresh processes answer the same 6,011-query list (pool, refusals, and 4,000 queries laid out as walks over related queries of the wider API surface: terms, term days, weeks, Julian dates, festivals by index and date, holidays, day and hour almanac, term-anchored series, leap months, pillars, clock arithmetic) in listed, reversed and shuffled orders (the last ones on 8 threads). M7: {} queries of the same wider surface laid out as single-thread walks over related queries (related day / year / instant / index, or another question about the same day); every answer equals the answer the same query gets as the only call of a fresh thread. M5: per-value memos of LunarDay/LunarHour on clones taken before/after the first derived call, relations (==, rendering, order, round trips) between warm and never-touched values, the day an hour hands out before and after hour-level questions; stems, branches and pillars stepped by every n in -130..130 from a warm source, a cold source and constructed directly. M6: 25 range-extreme queries and a sample of the pool, each as the very first library call of a fresh thread on a cold cache. {} distinct_nontrivial = distinct histories, rounds, process pairs.",
       p.len(),
       refusals().len(),
       cfg.tier.pick(12, 120),
@@ -814,6 +1224,7 @@ pub fn run(cfg: &Cfg) -> (Log, Meta) {
       cfg.tier.pick(300, 5_000),
       cfg.tier.pick(20, 300),
       cfg.tier.pick(4, 10),
+      cfg.tier.pick(40_000, 400_000),
       if cfg.tier == Tier::Thorough { "M3: 16 Miri seeds of a 3-thread colliding-key workload with one refused request." } else { "" }
     ),
     assumptions: vec![
